@@ -1,7 +1,8 @@
 (* C11 — model of how spikeglx.Reader / OnlineReader decide how many sample
    frames of a binary they expose (src/spikeglx.py, current tree, i.e. with
-   the repairs f9ac653 "Reader.open exposes only the complete sample frames ..."
-   and 381463f "no KeyError when the size-mismatch warning is formatted").
+   the repairs f9ac653 "Reader.open exposes only the complete sample frames ...",
+   381463f "no KeyError when the size-mismatch warning is formatted" and aa7f63d "Reader.open compares
+   the announced size with the file's current size").
 
    Floats are IEEE binary64 as formalised by Flocq (BinarySingleNaN, prec 53,
    emax 1024), every operation rounded to nearest-even exactly as CPython /
@@ -77,7 +78,7 @@ Definition memmap_ok (isz nbytes ns nc : Z) : bool :=
   (0 <? nbytes) && (0 <=? ns * nc * isz) && (ns * nc * isz <=? nbytes).
 
 (* Reader.open, flat-binary branch (isz = self.dtype.itemsize; 2 for the default int16):
-     if self.nc * self.ns * itemsize != self.nbytes:
+     if self.nc * self.ns * itemsize != self.file_bin.stat().st_size:
          ftsec = st_size // (itemsize * self.nc) / self.fs
          if self.meta is not None:
              if not self.ignore_warnings: _logger.warning(f"...{self.meta.get('fileSizeBytes')}...")   (cannot raise)
@@ -128,20 +129,18 @@ Definition byte_offset (isz nc i j : Z) : Z := isz * (i * nc + j).
 (* ------------------------------------------------------------------ *)
 (* The reader as a stateful object on a file whose size changes         *)
 (* ------------------------------------------------------------------ *)
-(* Reader.__init__ caches  self.nbytes = self.file_bin.stat().st_size .
-   Reader.open compares  nc * ns * itemsize != self.nbytes  (the CACHED size) but computes
-   ftsec = self.file_bin.stat().st_size // (itemsize * nc) / fs  from a FRESH stat, and
-   np.memmap checks the length against the file as it is now.  OnlineReader.ns stats the
-   file at every evaluation.  `open_at online cached cur ...` is Reader.open when the
-   constructor saw `cached` bytes and the file now has `cur` bytes; it returns the outcome
-   and meta.get('fileTimeSecs') afterwards (the rewrite happens before np.memmap can raise). *)
-Definition open_at (online : bool) (isz cached cur nc : Z) (fts : option b64) (fs : b64)
+(* Reader.__init__ caches  self.nbytes = self.file_bin.stat().st_size , but since repair aa7f63d
+   Reader.open no longer reads it: the mismatch test, the duration and np.memmap's length check all
+   use the size the file has NOW (fresh stat), and OnlineReader.ns stats the file at every evaluation.
+   `open_at online isz cur ...` is Reader.open on a file that currently has `cur` bytes; it returns
+   the outcome and meta.get('fileTimeSecs') afterwards (the rewrite happens before np.memmap can raise). *)
+Definition open_at (online : bool) (isz cur nc : Z) (fts : option b64) (fs : b64)
   : outcome * option b64 :=
   match reader_ns online isz cur nc fts fs with
   | NsInt => (IntError, fts)
   | NsType => (TypeErr, fts)
   | NsOk ns0 =>
-      let mismatch := negb (nc * ns0 * isz =? cached) in
+      let mismatch := negb (nc * ns0 * isz =? cur) in
       let fts' := if mismatch then Some (fdiv (of_Z (cur / (isz * nc))) fs) else fts in
       match reader_ns online isz cur nc fts' fs with
       | NsInt => (IntError, fts')
@@ -156,7 +155,6 @@ Record reader := mkReader {
   r_isz : Z;                  (* self.dtype.itemsize (the `dtype` argument; 2 for the default int16) *)
   r_nc : Z;                   (* nSavedChans *)
   r_fs : b64;                 (* sampling rate of the meta file *)
-  r_cached : Z;               (* self.nbytes *)
   r_fts : option b64;         (* self.meta.get('fileTimeSecs') *)
   r_mapped : option Z         (* frames of self._raw (None: not open) *)
 }.
@@ -167,8 +165,8 @@ Inductive op :=
   | OpEnter.                  (* sr.__enter__(): opens only if not self.is_open *)
 
 Definition do_open (cur : Z) (r : reader) : reader * outcome :=
-  let '(o, fts') := open_at (r_online r) (r_isz r) (r_cached r) cur (r_nc r) (r_fts r) (r_fs r) in
-  (mkReader (r_online r) (r_isz r) (r_nc r) (r_fs r) (r_cached r) fts'
+  let '(o, fts') := open_at (r_online r) (r_isz r) cur (r_nc r) (r_fts r) (r_fs r) in
+  (mkReader (r_online r) (r_isz r) (r_nc r) (r_fs r) fts'
             (match o with Opened ns _ _ _ => Some ns | _ => r_mapped r end), o).
 
 (* one step: new (file size, reader), and the outcome of the open attempt if there was one *)
@@ -187,7 +185,7 @@ Definition step (w : Z * reader) (o : op) : (Z * reader) * option outcome :=
 (* Reader(file, open=...) / OnlineReader(file, open=...) on a file of `cur` bytes *)
 Definition construct (online : bool) (isz nc : Z) (fs : b64) (fts : option b64) (cur : Z) (do_op : bool)
   : (Z * reader) * option outcome :=
-  let r := mkReader online isz nc fs cur fts None in
+  let r := mkReader online isz nc fs fts None in
   if do_op then step (cur, r) OpOpen else ((cur, r), None).
 
 Fixpoint exec (w : Z * reader) (ops : list op) : list ((Z * reader) * option outcome) :=
